@@ -1,29 +1,33 @@
 """G04 (growth specification, DESIGN.md section 7) - FitsTiler and the all-in-one toasty.tile_fits as a state machine.
 
-Spec: spec/FitsTiler.tla (+ spec/MCFitsTiler.tla).  The output directories a call may touch (an explicit `out_dir` and
-the directories derived from the first input's name) under a SEQUENCE of calls (files, hdu_index, wcs_key, blankval,
-tiling_method, out_dir, override): the choice of the tiling method (AUTO_DETECT by angular extent -> TAN / TOAST;
-HiPS is unavailable here and modelled as such), the derivation of out_dir, reuse of an existing directory versus
-override=True, what the caller gets back (projection, tile levels, DATAMIN / DATAMAX, Url / FileType, name, centre) and
-what is on disk afterwards (tile positions, the values found in the deepest tiles, the root tile's range,
-index_rel.wtml).  The study tiling is StudyTiling!Tiling / SubTiling / Rects, Url / FileType / Deepest are Wtml's.
+Spec: spec/FitsTiler.tla (+ spec/MCFitsTiler.tla; the input data is the generated module FitsTilerData, of which
+spec/FitsTilerData.tla is a small instance that makes spec/MCFitsTiler.cfg runnable on its own).  The output directories
+a call may touch (an explicit `out_dir` and the directories derived from the first input's name) under a SEQUENCE of
+calls (files, hdu_index, wcs_key, blankval, tiling_method, out_dir, override): the choice of the tiling method
+(AUTO_DETECT by angular extent -> TAN / TOAST; HiPS is unavailable here and modelled as such), the derivation of
+out_dir, reuse of an existing directory versus override=True, WHEN an impossible selection / an inexpressible WCS / an
+entirely blank input makes the call raise and what is left behind, what the caller gets back (projection, tile levels,
+DATAMIN / DATAMAX, Url / FileType, name, centre) and what is on disk afterwards (tile positions, the values found in the
+deepest tiles, the root tile's range, index_rel.wtml).  The tiles a study image touches are StudyTiling!SubTiling /
+Rects, Url / FileType / Deepest are Wtml's.
 
 TLC (a) explores every history of calls of a command table up to a bound and checks the contract (the returned builder
 describes tiles that exist on disk whenever the directory carries its WTML; fresh / override directories reflect the
 current call only; the method is a function of the request and the collection's extent; repeated identical calls are
 idempotent; a call touches its own directory only; the caller is served the description of the call that built the
 directory), (b) refutes the "ideal" statements the code does not keep (the counterexamples are the shortest histories /
-witness inputs), (c) evaluates given histories (crafted, seeded random; inputs only) and its own random walks and emits
-what every call returns and every directory afterwards, (d) emits the state-independent table (method, derived
-directory, outcome class) of a second command table that adds an all-sky plate-carree map, anisotropic images and
-irregular path names.
+witness inputs) and, as a control of the machine itself, CompleteIsConsistent for an override that keeps the old tiles,
+(c) evaluates given histories (crafted, seeded random; inputs only) and its own random walks and emits what every call
+returns and every directory afterwards, (d) emits the state-independent table (method, derived directory, outcome
+class) of a second command table that adds an all-sky plate-carree map, anisotropic images and irregular path names.
 
 Binding (spec -> code): the FITS files are built from the same tables that are handed to TLC (the sky positions of the
-corner pixel coordinates are measured on the files with astropy); every emitted history is replayed, all calls of a
-history in one process and one scratch tree, alternately through toasty.tile_fits and through
+corner / midpoint pixel coordinates are measured on the files with astropy); every emitted history is replayed, all
+calls of a history in one process and one scratch tree, alternately through toasty.tile_fits and through
 collection.load + FitsTiler(...).tile(...); after EVERY call the returned out_dir / Builder (or the exception), the
 FitsTiler's tiling_method / out_dir, and every candidate directory (existence, tile files, distinct finite values of
-the deepest tiles, root DATAMIN / DATAMAX, index_rel.wtml read as XML) are compared with the record TLC printed.
+the deepest tiles, root DATAMIN / DATAMAX, index_rel.wtml read as XML) are compared with the record TLC printed.  A
+disagreement on a step where the model follows the code away from the documented behaviour (DEVIATION_ACTS) is drift.
 """
 import os
 import shutil
@@ -343,8 +347,31 @@ def data_module(tables, table, scripts=()):
         canon.setdefault(call_key(c)[:-1], k + 1)
     defs.append(("Canon", tla.lit(tuple(canon[call_key(c)[:-1]] for c in table))))
     defs.append(("Scripts", "{" + ", ".join(tla.lit(tuple(k + 1 for k in s)) for s in scripts) + "}"))
+    # TLC's own random walks stay on the explicit directory, so that the calls meet each other's tiles
+    defs.append(("WalkSet", tla.lit(set(k + 1 for k, c in enumerate(table) if c["out"] == "out"))))
     defs.append("Paths == {PathOf[f] : f \\in Files}")
     return tla.module("FitsTilerData", ["Integers", "Sequences", "TLC"], defs)
+
+
+def write_default_data(path=None):
+    """Regenerate spec/FitsTilerData.tla, the small instance that makes spec/MCFitsTiler.cfg runnable on its own:
+    /venv/bin/python -c "from checks import g04; g04.write_default_data()" (from /verif)."""
+    import tempfile
+    d = tempfile.mkdtemp(prefix="g04-data-")
+    try:
+        table = reduced_table()
+        idx = dict((call_key(c), k) for k, c in enumerate(table))
+        scripts = [[idx[call_key(c)] for c in s] for _n, s in crafted_scripts() if all(call_key(c) in idx for c in s)]
+        text = data_module(tla_tables(build_files(d)), table, scripts)
+    finally:
+        shutil.rmtree(d, ignore_errors=True)
+    head = ("(* Input data of FitsTiler.tla - a small instance (the reduced call table of checks/g04.py and the crafted histories *)\n"
+            "(* that stay within it), GENERATED by checks/g04.py: write_default_data.  The check replaces this module, in the   *)\n"
+            "(* scratch directory of every TLC run, by the instance that run explores.                                          *)\n")
+    lines = text.split("\n")
+    text = "\n".join(lines[:1] + [head.rstrip("\n")] + lines[1:])
+    with open(path or os.path.join(os.path.dirname(os.path.dirname(os.path.abspath(__file__))), "spec", "FitsTilerData.tla"), "w") as f:
+        f.write(text)
 
 
 def mc_modules(name, tables, table, scripts=(), assumes=(), extra=(), extends=()):
@@ -890,11 +917,7 @@ def run(ctx):
             refuted = {}
             allrecs = list(by_s.values()) + list(by_w.values())
             for inv in REFUTED:
-                if inv == "FailedCallChangesNothing":
-                    wit = [r for r in allrecs if r["ret"]["act"] in ("FailAfterRemove", "FailLate") or
-                           (r["ret"]["act"] == "HipsUnavailable" and r["ret"]["kind"] == "override")]
-                else:
-                    wit = [r for r in allrecs if r["ideal"][inv] is False]
+                wit = [r for r in allrecs if r["ideal"][inv] is False]
                 if not wit:
                     ctx.machinery("no emitted state refutes %s: the model (or the histories) have lost the as-built behaviour they are meant to expose" % inv)
                 w = min(wit, key=lambda r: len(r["hist"]))
@@ -905,7 +928,7 @@ def run(ctx):
             if not mis:
                 ctx.machinery("the table holds no collection whose extent the code mis-measures")
             refuted["AutoUsesTrueExtent"] = {"witnesses": [{"call": call_text(c), "chosen": r["method"], "large_as_the_code_measures": r["large_as_built"],
-                                                           "large_image": r["large_true"]} for c, r in mis]}
+                                                           "large_by_the_image_corners": r["large_corners"], "large_image": r["large_true"]} for c, r in mis]}
             irr = [(c, r) for c, r in items if r["ideal_dir"] and r["dir"] != r["ideal_dir"]]
             if not irr:
                 ctx.machinery("the table holds no path whose derived directory is not next to the input")
